@@ -130,6 +130,16 @@ pub struct GOutput {
     pub datum: Option<DataE>,
 }
 
+/// `cardano::publish`: one more output, after the regular ones, that carries a reference script
+#[derive(Debug, Clone, Serialize, Deserialize, PartialEq)]
+pub struct GPublish {
+    pub to: AddrE,
+    pub amount: AssetE,
+    pub datum: Option<DataE>,
+    pub version: u8,
+    pub script: Vec<u8>,
+}
+
 #[derive(Debug, Clone, Serialize, Deserialize, PartialEq)]
 pub struct GMint {
     pub amount: AssetE,
@@ -171,6 +181,11 @@ pub struct GProg {
     /// cardano::withdrawal blocks: reward account (an address whose delegation part is taken), amount
     #[serde(default)]
     pub withdrawals: Vec<(AddrE, IntE)>,
+    #[serde(default)]
+    pub publishes: Vec<GPublish>,
+    /// the withdrawal blocks are written without a `redeemer` field (nothing guards them: no redeemer is emitted)
+    #[serde(default)]
+    pub withdrawal_no_redeemer: bool,
     /// cardano::treasury_donation { coin }
     #[serde(default)]
     pub donation: Option<IntE>,
@@ -574,7 +589,29 @@ pub fn tokens(prog: &GProg, trailing: bool) -> Vec<String> {
         p.addr(from, prog);
         p.toks(&[",", "amount", ":"]);
         p.int(amount);
-        p.toks(&[",", "redeemer", ":", "()", ",", "}"]);
+        if prog.withdrawal_no_redeemer {
+            p.toks(&[",", "}"]);
+        } else {
+            p.toks(&[",", "redeemer", ":", "()", ",", "}"]);
+        }
+        p.nl();
+        blocks.push(take(&mut p, m));
+    }
+    for pb in &prog.publishes {
+        let m = p.t.len();
+        p.toks(&["cardano", "::", "publish", "{", "to", ":"]);
+        p.addr(&pb.to, prog);
+        p.toks(&[",", "amount", ":"]);
+        p.asset(&pb.amount, prog);
+        if let Some(d) = &pb.datum {
+            p.toks(&[",", "datum", ":"]);
+            p.data(d, prog);
+        }
+        p.toks(&[",", "version", ":"]);
+        p.tok(&pb.version.to_string());
+        p.toks(&[",", "script", ":"]);
+        p.tok(&format!("0x{}", hex::encode(&pb.script)));
+        p.toks(&[",", "}"]);
         p.nl();
         blocks.push(take(&mut p, m));
     }
@@ -1324,12 +1361,15 @@ pub fn generate(c: &mut Chooser) -> Scenario {
     }
 
     // chain-specific directives that move value: a withdrawal adds to what is consumed, a donation to what is spent
-    match g.pick("directive", &["none", "withdrawal", "withdrawal-n", "donation", "donation-n", "withdrawal+donation"]) {
+    match g.pick("directive", &["none", "withdrawal", "withdrawal-n", "donation", "donation-n", "withdrawal+donation", "withdrawal-no-redeemer"]) {
         0 => {}
         k => {
             let last = prog.outputs.len() - 1;
+            if k == 6 {
+                prog.withdrawal_no_redeemer = true;
+            }
             let w = match k {
-                1 | 5 => Some(IntE::Lit(250_000)),
+                1 | 5 | 6 => Some(IntE::Lit(250_000)),
                 2 => Some(ensure_n(&mut prog)),
                 _ => None,
             };
@@ -1346,6 +1386,26 @@ pub fn generate(c: &mut Chooser) -> Scenario {
                 prog.donation = Some(d.clone());
                 prog.outputs[last].amount = AssetE::Sub(Box::new(prog.outputs[last].amount.clone()), Box::new(AssetE::Ada(d)));
             }
+        }
+    }
+
+    // a published script: one more output; its amount a literal (taken off the change), or what is left of the input
+    // (then the change output gets the literal), with or without a datum
+    match g.pick("publish", &["none", "literal-amount", "amount-from-input", "with-datum"]) {
+        0 => {}
+        k => {
+            let last = prog.outputs.len() - 1;
+            let lit = AssetE::Ada(IntE::Lit(1_400_000));
+            let rest = AssetE::Sub(Box::new(prog.outputs[last].amount.clone()), Box::new(lit.clone()));
+            let (change, published) = if k == 2 { (lit, rest) } else { (rest, lit) };
+            prog.outputs[last].amount = change;
+            prog.publishes.push(GPublish {
+                to: AddrE::Party(receiver.to_string()),
+                amount: published,
+                datum: if k == 3 { Some(DataE::Int(IntE::Param("q".into()))) } else { None },
+                version: if k == 2 { 2 } else { 3 },
+                script: vec![0x4E, 0x4D, 0x01, 0x00, 0x00, 0x33],
+            });
         }
     }
 
